@@ -18,6 +18,13 @@ pub enum Op {
     /// pop_except_from(set) and push the result straight back with push_front (what a tokenizer does to
     /// un-consume): the pushed tendril shares its allocation with the front buffer when the run is long
     Unconsume(&'static str),
+    /// peek_front_chunk_mut: the chunk must be the first buffer; take its first character through the
+    /// mutable reference (and pop the buffer if that empties it), as the data-state fast path does
+    FrontChunk,
+    /// swap_with a second queue (the state is the pair of queues)
+    Swap,
+    /// replace_with the second queue's buffers (the second queue is left empty)
+    Replace,
 }
 
 pub const LONG: &str = "ababababab<ababababab&";
@@ -44,6 +51,9 @@ pub fn alphabet() -> Vec<Op> {
         v.push(Op::Eat(p, false));
         v.push(Op::Eat(p, true));
     }
+    v.push(Op::FrontChunk);
+    v.push(Op::Swap);
+    v.push(Op::Replace);
     v
 }
 
@@ -58,6 +68,8 @@ fn set_of(s: &str) -> SmallCharSet {
 
 pub struct Model {
     pub chunks: Vec<String>,
+    /// the second queue (Swap / Replace)
+    pub other: Vec<String>,
 }
 
 #[derive(PartialEq, Debug)]
@@ -150,6 +162,25 @@ impl Model {
                     r => r,
                 }
             },
+            Op::FrontChunk => {
+                if self.chunks.is_empty() {
+                    return Ret::Buf(None);
+                }
+                let whole = self.chunks[0].clone();
+                self.chunks[0].remove(0);
+                if self.chunks[0].is_empty() {
+                    self.chunks.remove(0);
+                }
+                Ret::Buf(Some(whole))
+            },
+            Op::Swap => {
+                std::mem::swap(&mut self.chunks, &mut self.other);
+                Ret::Unit
+            },
+            Op::Replace => {
+                self.chunks = std::mem::take(&mut self.other);
+                Ret::Unit
+            },
             Op::Eat(pat, ci) => {
                 let all: Vec<u8> = self.chunks.concat().into_bytes();
                 let p = pat.as_bytes();
@@ -179,8 +210,29 @@ impl Model {
     }
 }
 
-pub fn apply_real(q: &BufferQueue, op: &Op) -> Ret {
+pub fn apply_real(q: &BufferQueue, q2: &BufferQueue, op: &Op) -> Ret {
     match op {
+        Op::FrontChunk => {
+            let Some(mut front) = q.peek_front_chunk_mut() else { return Ret::Buf(None) };
+            let whole = front.to_string();
+            front.pop_front_char();
+            let now_empty = front.is_empty();
+            drop(front);
+            if now_empty {
+                q.pop_front();
+            }
+            Ret::Buf(Some(whole))
+        },
+        Op::Swap => {
+            q.swap_with(q2);
+            Ret::Unit
+        },
+        Op::Replace => {
+            let taken = BufferQueue::default();
+            taken.swap_with(q2);
+            q.replace_with(taken);
+            Ret::Unit
+        },
         Op::PushBack(s) => {
             q.push_back(StrTendril::from_slice(s));
             Ret::Unit
@@ -230,9 +282,16 @@ pub fn observe(q: &BufferQueue) -> Vec<(String, bool)> {
 
 pub fn run_history(ops: &[Op], h: &[u16], cap: usize) -> Result<Option<u128>, (String, String)> {
     let q = BufferQueue::default();
-    let mut m = Model { chunks: vec![] };
+    let q2 = BufferQueue::default();
+    let mut m = Model { chunks: vec![], other: vec![] };
     for (i, &s) in h.iter().enumerate() {
         let op = &ops[s as usize];
+        if let Op::Swap | Op::Replace = op {
+            // the pair of queues squares the state space: at most two exchanges per history
+            if h[..i].iter().filter(|&&p| matches!(ops[p as usize], Op::Swap | Op::Replace)).count() >= 2 {
+                return Ok(None);
+            }
+        }
         if let Op::PushBack(x) | Op::PushFront(x) = op {
             // one long (heap) buffer per history, accompanied by at most two short pushes; otherwise the cap
             let is_long = |y: &str| y.chars().count() > 8;
@@ -246,13 +305,13 @@ pub fn run_history(ops: &[Op], h: &[u16], cap: usize) -> Result<Option<u128>, (S
                 if shorts >= 2 {
                     return Ok(None);
                 }
-            } else if m.total() + x.chars().count() > cap {
+            } else if m.total() + m.other.iter().map(|c| c.chars().count()).sum::<usize>() + x.chars().count() > cap {
                 return Ok(None);
             }
         }
         let last = i + 1 == h.len();
         let want = m.apply(op);
-        let got = match guarded(|| apply_real(&q, op)) {
+        let got = match guarded(|| apply_real(&q, &q2, op)) {
             Ok(g) => g,
             Err(p) => return Err(("panic".into(), format!("op {op:?} panicked: {p}"))),
         };
@@ -277,10 +336,21 @@ pub fn run_history(ops: &[Op], h: &[u16], cap: usize) -> Result<Option<u128>, (S
             if q.is_empty() != m.chunks.is_empty() {
                 return Err(("is_empty".into(), format!("after {op:?}")));
             }
+            let part2: Vec<String> = observe(&q2).into_iter().map(|x| x.0).collect();
+            if part2 != m.other {
+                return Err(("partition".into(), format!("after {op:?}: second queue: model {:?} real {:?}", m.other, part2)));
+            }
         }
     }
     let obs = observe(&q);
-    Ok(Some(digest(&obs)))
+    let obs2 = observe(&q2);
+    let exchanges = h.iter().filter(|&&p| matches!(ops[p as usize], Op::Swap | Op::Replace)).count();
+    // everything the enabling conditions read from the history is part of the state
+    let is_long = |y: &str| y.chars().count() > 8;
+    let longs = h.iter().filter(|&&p| matches!(ops[p as usize], Op::PushBack(y) | Op::PushFront(y) if is_long(y))).count();
+    let shorts = h.iter().filter(|&&p| matches!(ops[p as usize], Op::PushBack(y) | Op::PushFront(y) if !is_long(y))).count();
+    let push_class = if longs > 0 { 10 + shorts.min(2) } else { shorts.min(3) };
+    Ok(Some(digest(&(obs, obs2, exchanges, push_class))))
 }
 
 pub fn render(ops: &[Op], h: &[u16]) -> String {
@@ -418,7 +488,7 @@ pub fn scalar_sweep(ctx: &Ctx) -> u64 {
 pub fn main(ctx: &Ctx) -> ! {
     let sweep = scalar_sweep(ctx);
     let ops = alphabet();
-    let cap = ctx.tier.pick(8, 10);
+    let cap = ctx.tier.pick(6, 10);
     let cfg = BfsCfg {
         max_depth: 64,
         max_states: 50_000_000,
